@@ -182,4 +182,34 @@ def subclassOwnParams : List (Nat × Nat) :=
   [(k! "OpenAPIParser", k! "openapi_scopes"),
    (k! "GraphQLParser", k! "data_model_scalar_type"), (k! "GraphQLParser", k! "data_model_union_type")]
 
+/-! ### Path-valued options (C18: the same normalisation on every route) -/
+
+/-- reviewed: the `Config` fields whose value is a location — a `Path` (`path`) or a text file that the validator opens
+(`file`); a new path-valued option has to be added here (and gets a fixture in vlib/props/c18_paths.py) -/
+def reviewedPathFields : List (Nat × Nat) :=
+  [(k! "input", k! "path"), (k! "output", k! "path"), (k! "custom_template_dir", k! "path"),
+   (k! "extra_template_data", k! "file"), (k! "aliases", k! "file"), (k! "custom_file_header_path", k! "path"),
+   (k! "custom_formatters_kwargs", k! "file")]
+
+/-- the validator that normalises a field of each kind -/
+def pathValidator (kind : Nat) : Nat := if kind = k! "path" then k! "validate_path" else k! "validate_file"
+
+/-- reviewed source form of the two validators: `None` and an already built object pass through untouched, a STRING is
+`Path(value).expanduser().resolve()` (what Dcg/Model/PathNorm models) -/
+def reviewedValidatorBranches : List (Nat × List (Nat × Nat)) :=
+  [(k! "validate_file",
+    [(k! "value is None or isinstance(value, TextIOBase)", k! "value"),
+     (k! "else", k! "cast('TextIOBase', Path(value).expanduser().resolve().open('rt'))")]),
+   (k! "validate_path",
+    [(k! "value is None or isinstance(value, Path)", k! "value"),
+     (k! "else", k! "Path(value).expanduser().resolve()")])]
+
+/-- argparse `type=` values that leave the command-line text a `str`, so that the validator is handed the same thing on
+the command-line route and on the pyproject.toml route -/
+def strTypes : List Nat := [k! "None", k! "str"]
+
+/-- KNOWN FINDING C18-filetype: options whose command-line text argparse itself opens (`type=FileType("rt")`: `open(text)`,
+no `expanduser`, relative to the working directory) before the validator sees it -/
+def cliOpensRawString : List Nat := [k! "extra_template_data", k! "aliases", k! "custom_formatters_kwargs"]
+
 end Dcg.Model.Config
